@@ -17,9 +17,11 @@ def build(repo, verif, workdir, log):
     key = os.path.basename(workdir).split("-")[0] or "x"
     base = os.path.join(verif, ".cache", "twin-" + key)
     os.makedirs(base, exist_ok=True)
-    lockf = open(os.path.join(base, ".lock"), "w")
-    fcntl.flock(lockf, fcntl.LOCK_EX)
-    _LOCKS.append(lockf)  # held until the process exits (build + searches + replay)
+    if base not in _HELD:  # a second build in the same process (one witness search handing over to another) must not wait for itself
+        lockf = open(os.path.join(base, ".lock"), "w")
+        fcntl.flock(lockf, fcntl.LOCK_EX)
+        _HELD[base] = lockf
+        _LOCKS.append(lockf)  # held until the process exits (build + searches + replay)
     src = os.path.join(verif, "twin")
     dst = os.path.join(base, "twin")
     rcopy = os.path.join(base, "repo")
@@ -64,6 +66,7 @@ def build(repo, verif, workdir, log):
 
 
 _LOCKS = []
+_HELD = {}
 
 
 def run(binary, args, timeout=300, crit="bytes"):
